@@ -91,17 +91,24 @@ def run(pr, repo):
 def bounded(pr):
     from . import native
     ev, viol, classes = 0, [], set()
-    cases = [('1HPX', ['A']), ('1HPX', ['B']), ('3SGB-subset', ['E']), ('3SGB-subset', ['I'])]
+    # 4DFR: the hetero groups of chain A follow the records of chain B (a chain's records need not be contiguous)
+    cases = [('1HPX', ['A']), ('1HPX', ['B']), ('3SGB-subset', ['E']), ('3SGB-subset', ['I']), ('4DFR', ['A'])]
     if pr.tier == 'thorough':
         cases += [('3SGB', ['E']), ('3SGB', ['I']), ('3SGB', ['E', 'I']), ('1HPX', ['A', 'B'])]
-    variants = ['asis', 'noter', 'lower']
+    variants = ['asis', 'noter', 'lower', 'split']
     for name, sel in cases:
         base = native.pdb_lines(name)
-        for v in variants:
+        for v in (variants if name != '4DFR' else ['asis']):
             lines = list(base)
             s = list(sel)
             if v == 'noter':
                 lines = [l for l in lines if not l.startswith('TER') and l[12:16] != ' OXT']
+            if v == 'split':
+                # the last 40 records of the first selected chain are moved to the end of the file (after every other chain)
+                mine = [i for i, l in enumerate(lines) if l[:6] in ('ATOM  ', 'HETATM') and l[21] == sel[0]]
+                tail = set(mine[-40:])
+                lines = [l for i, l in enumerate(lines) if i not in tail and not l.startswith(('END', 'MASTER', 'CONECT'))] + \
+                        [lines[i] for i in sorted(tail)]
             if v == 'lower':
                 lines = [(l[:21] + l[21].lower() + l[22:]) if l[:6] in ('ATOM  ', 'HETATM') and l[21] == sel[0] else l for l in lines]
                 s = [c.lower() if c == sel[0] else c for c in sel]
